@@ -26,13 +26,23 @@ def run_property(prop: str, tier: str, repo_root: str = None) -> int:
     mod = importlib.import_module(f"sa.rules.{prop.lower()}")
     ctx = Ctx(prop, tier, repo, seed=int(os.environ.get("VERIF_SEED", "0") or 0))
     mod.run(ctx)
-    return finish(
+    st_ok, st_lines = True, []
+    if tier == "thorough" and not os.environ.get("VERIF_NO_SELFTEST"):
+        from . import selftest
+        st_ok, st_lines, ctx.selftest = selftest.run(prop, repo.root)
+    rc = finish(
         ctx,
         getattr(mod, "LEVEL", "other"),
         mod.EXPLANATION,
         getattr(mod, "ASSUMPTIONS", []),
         TRUSTED_COMMON + getattr(mod, "TRUSTED", []),
     )
+    for l in st_lines:
+        print(l)
+    if not st_ok:
+        print(f"ANALYSIS-ERROR property={prop} selftest: the checker missed a confirmed seeded change or flagged a benign twin (see lines above); its verdict on the tree is not trusted")
+        return rc or 2
+    return rc
 
 
 def main(argv=None) -> int:
